@@ -95,6 +95,11 @@ def load_known() -> list[dict[str, t.Any]]:
     return json.loads(KNOWN.read_text())["findings"]
 
 
+def has_new_violations(ctx: Ctx) -> bool:
+    known_active = {k["key"] for k in load_known() if k["property"] == ctx.pid and k.get("status") == "known"}
+    return any((not o.ok) and o.key not in known_active for o in ctx.obligations)
+
+
 def finish(ctx: Ctx, level_text: str, trusted: list[str], assumptions: list[str], write_evidence: bool = True) -> int:
     known = [k for k in load_known() if k["property"] == ctx.pid]
     known_active = {k["key"]: k for k in known if k.get("status") == "known"}
@@ -107,7 +112,10 @@ def finish(ctx: Ctx, level_text: str, trusted: list[str], assumptions: list[str]
     if ctx.errors:
         for e in ctx.errors:
             print(f"ANALYSIS-ERROR property={ctx.pid} {e}", file=out)
-        return 2
+        if not new:
+            return 2
+        # undischarged obligations on named constructs are reported even when a floor is missed elsewhere
+        # (removing an instance and breaking another must not downgrade the violation to "could not decide")
 
     seen_keys = set()
     for o in kn:
